@@ -116,7 +116,8 @@ def _side_rng(rng):
 
 def _twins(t):
     """tags that differ from t in one tag byte, or that a sloppy 3-byte codec would confuse with t"""
-    out = {t ^ 0x100, t ^ 0x10000, t ^ 0x10100, t ^ 0x1, t & 0xffff, t & 0xff00ff, t & 0xff,
+    out = {t ^ 0x100, t ^ 0x10000, t ^ 0x10100, t ^ 0x1, t & 0xffff, t & 0xff00ff, t & 0xff, t ^ 0x800000,
+           t & 0x7fffff, t ^ 0x400000,
            ((t >> 16) << 8) | (t & 0xffff), ((t >> 16) << 8) | (t & 0xff), (t >> 8) & 0xffff, t >> 8, t >> 16,
            (t & 0xff0000) | ((t >> 16 & 0xff) << 8) | (t & 0xff), (t << 8) & 0xffffff, t | 0x10000, t | 0x100}
     return sorted(x for x in out if x != t and 0 <= x < (1 << 24))
@@ -143,7 +144,22 @@ def gen_aged(rng, mx=None):
         [b + 0x10000, b + 0x20000, (b << 8), 0x20000],
         [rng.randrange(2, 1 << 17) for _ in range(rng.choice([2, 4, 6]))],
     ])
-    fam = sorted(set(t for t in fam if 2 <= t <= AGED_CAP))
+    far = rng.random() < 0.15
+    if far:
+        # a very old connection: tags that need the top bits of the third byte, next to their twins below 2^23,
+        # and the last tags the pool can give (high-water marks past AGED_CAP are reached by assigning the counter)
+        fam = rng.choice([
+            [b, b + 0x800000, b + 0x800001],
+            [b, b + 0x400000, b + 0x800000, b + 0xc00000],
+            [0x7fffff, 0x800000, 0x800001, 2, 3],
+            [b + 0x800000, b + 0x800100, b + 0x810000, b, b + 0x100],
+            [0xfffffb, 0xfffffc, b],
+        ])
+    fam = sorted(set(t for t in fam if 2 <= t <= (REAL_MAX - 1 if far else AGED_CAP)))
+    if far:
+        hi = max(fam)
+        return {'next': rng.choice([hi, hi + 1, hi + 2, REAL_MAX - 3, REAL_MAX - 2]) if hi < REAL_MAX - 3
+                else rng.choice([REAL_MAX - 3, REAL_MAX - 2]), 'free': fam}
     if rng.random() < 0.3:
         fam = fam[:max(2, len(fam) - rng.randrange(0, 3))]
     hi = max(fam)
@@ -749,8 +765,11 @@ def run_script(script):
     def age_pool(pool):
         """bring the REAL pool into the aged state the way traffic would: `next - 1` leases through get() (tags
         2 .. next, the free set being empty meanwhile), then release() of the tags that came back"""
-        for _ in range(aged['next'] - 1):
+        for _ in range(min(aged['next'], AGED_CAP) - 1):
             pool.get()
+        if aged['next'] > AGED_CAP:
+            # millions of further leases: the counter is assigned (what that many get() calls on an empty free set do)
+            pool._next = aged['next']
         for t in aged['free']:
             pool.release(t)
 
@@ -883,6 +902,8 @@ def _tag_aged(recs, tags, aged):
         tags.add('aged-next>=2^8')
     if aged['next'] >= 0x10000:
         tags.add('aged-next>=2^16')
+    if aged['next'] >= 0x800000:
+        tags.add('aged-next>=2^23')
     wide = set()        # tags >= 256 given to requests of this script
     timed_out = set()
     rid_tag = {}
